@@ -179,6 +179,12 @@ class _FuncInline(SiteRewriter):
 
         # merge free variables
         for name in ast.free_vars:
+            if name in self.def_use.name_to_defs and any(
+                not (isinstance(d, AssignDef) and d.is_free)
+                for d in self.def_use.name_to_defs[name]
+            ):
+                # a caller local of the same name would capture the reference
+                raise RuntimeError(f'cannot inline function `{e.fn.name}`: its free variable `{name}` is a local of `{self.func.name}`')
             if str(name) in self.env:
                 # already in the environment, check that it is the same
                 val = self.env.get(str(name))
